@@ -69,9 +69,17 @@ namespace vf {
 
     inline void install()
     {
+        // handlers run on their own stack: runaway recursion in the code under test (stack overflow) is then an
+        // observed outcome (ub:SIGSEGV) of the guarded call instead of the death of the recorder
+        static char alt_stack[1 << 16];
+        stack_t ss {};
+        ss.ss_sp = alt_stack;
+        ss.ss_size = sizeof(alt_stack);
+        ss.ss_flags = 0;
+        sigaltstack(&ss, nullptr);
         struct sigaction sa {};
         sa.sa_handler = on_signal;
-        sa.sa_flags = SA_NODEFER;
+        sa.sa_flags = SA_NODEFER | SA_ONSTACK;
         sigemptyset(&sa.sa_mask);
         for (int s : {SIGILL, SIGFPE, SIGSEGV, SIGBUS, SIGALRM}) {
             sigaction(s, &sa, nullptr);
